@@ -16,6 +16,7 @@ import (
 	"pgregory.net/rapid"
 
 	"verifharness/app"
+	"verifharness/refdec"
 )
 
 type C01Case struct {
@@ -30,6 +31,39 @@ func genC01Engine(t *rapid.T) C01Case {
 	a := GenApp(t, o)
 	if a.Cfg.OutputSize == 0 {
 		a.Cfg.OutputSize = uint32(rapid.IntRange(10, 160).Draw(t, "forcedsize"))
+	}
+	// a CROAK that fires while input is being handled (after the INCMP lines, before a
+	// closing wildcard): the session is purged and goes to the catch node, and is then
+	// browsed on
+	if chancePct(t, 15, "croak") {
+		if a.Cfg.FlagCount == 0 {
+			a.Cfg.FlagCount = 1
+		}
+		var cands []int
+		for i, n := range a.Nodes {
+			if n.Name != "_catch" && len(n.Code) > 0 {
+				for _, in := range n.Code {
+					if in.Op == refdec.HALT {
+						cands = append(cands, i)
+						break
+					}
+				}
+			}
+		}
+		if len(cands) > 0 {
+			nd := &a.Nodes[cands[uniformN(t, len(cands), "croaknode")]]
+			code := nd.Code
+			at := len(code)
+			if last := code[len(code)-1]; last.Op == refdec.INCMP && last.Sel == "*" {
+				at = len(code) - 1
+			}
+			croak := app.Instr{Op: refdec.CROAK, Num: 8, Mode: false}
+			nd.Code = append(append(append([]app.Instr{}, code[:at]...), croak), code[at:]...)
+		}
+	}
+	// a first function that turns one of the first requests away with a message of its own
+	if chancePct(t, 15, "first") {
+		a.Cfg.First = &app.First{Content: genText(t, "firstmsg", 4), StopAt: []int{uniformN(t, 3, "stopat")}}
 	}
 	c := C01Case{App: a, Inputs: toBS(GenHistory(t, a, HistOpts{MaxLen: 10, Junk: true}))}
 	c.Mode = []app.Mode{{Kind: "long"}, {Kind: "persist", Backend: "mem"}}[uniformN(t, 2, "mode")]
@@ -82,7 +116,17 @@ func checkC01Engine(c C01Case) (o Outcome) {
 			prefixed = true
 		}
 		if step.ExecErr != "" || !step.Cont {
-			if c.Mode.Kind == "long" {
+			// (a request turned away by the first function does not end anything: the
+			// engine is asked again)
+			turnedAway := false
+			if f := c.App.Cfg.First; f != nil && step.ExecErr == "" {
+				for _, at := range f.StopAt {
+					if at == len(s.FirstSeen)-1 && len(step.Calls) == 0 {
+						turnedAway = true
+					}
+				}
+			}
+			if c.Mode.Kind == "long" && !turnedAway {
 				break
 			}
 		}
